@@ -92,9 +92,37 @@ def job(j):
             st["n"] += 1
             flag({"type": w.types[ti - 1], "ti": ti}, way, q, variables, expect_not_delivered(w, resp, "e%d" % ti, way), resp)
 
+    def deep_ways(w):
+        """a variable two levels deep in a literal, the same text executed with different values (field and directive positions)"""
+        idx = {render.typeref(t): i for i, t in enumerate(w.types, 1)}
+        plans = [("[[Int]]", "Int", "[[1, $x]]", lambda v: [[1, v]], [5, 6, 5]),
+                 ("[[Int!]!]!", "Int!", "[[$x], [2]]", lambda v: [[v], [2]], [5, 6]),
+                 ("In2", "String", "{n: {n: {s: $x}}}", lambda v: {"n": {"n": {"s": v, }, "s": "1"}, "s": "1"}, ["a", "b", "a"]),
+                 ("[In1]", "Int", "[{r: 1, y: [2, $x]}]", None, [5, 6]),
+                 ("In1", "Int!", "{r: 1, y: [$x]}", lambda v: {"x": 1, "y": [v], "r": 1}, [5, 6, 5])]
+        for tys, vt, lit, mkexp, vals in plans:
+            ti = idx[tys]
+            for q, where in (("query ($x: %s) { s e%d(a: %s) }" % (vt, ti, lit), "field"), ("query ($x: %s) { s @p%d(a: %s) }" % (vt, ti, lit), "directive")):
+                for val in vals:
+                    resp = w.run(q, {"x": val})
+                    st["n"] += 1
+                    if mkexp is None:
+                        # [In1] with a nullable Int variable inside y: [Int!]: only that the value follows the variable is checked
+                        got = (w.calls[0][2] if where == "field" and w.calls else (w.dcalls[0][1] if w.dcalls else None))
+                        ok = isinstance(resp, dict) and not resp.get("errors") and got == {"a": [{"x": 1, "y": [2, val], "r": 1}]}
+                        mm = [] if ok else ["deep variable (%s): saw %r for $x=%r (%r)" % (where, got, val, resp)]
+                    else:
+                        exp = {"a": mkexp(val)}
+                        got = (w.calls[-1][2] if where == "field" and w.calls else (w.dcalls[0][1] if w.dcalls else None))
+                        ok = isinstance(resp, dict) and not resp.get("errors") and got == exp
+                        mm = [] if ok else ["deep variable (%s): saw %r expected %r (%r)" % (where, got, exp, resp)]
+                    flag({"type": w.types[ti - 1], "ti": ti}, "variable-two-levels-deep-repeated-" + where, q, {"x": val}, mm, resp)
+
     def on_line(rec):
         if rec["kind"] == "itypes":
             st["w"] = inputworld.InputWorld(rec)
+            if cfg.endswith("_0.cfg"):
+                deep_ways(st["w"])
             if cfg.endswith("_0.cfg"):
                 illtyped_ways(st["w"])
             return
@@ -159,6 +187,21 @@ def job(j):
             resp = w.run(q, {"x": xv})
             st["n"] += 1
             flag(rec, "variable-in-list", q, {"x": xv}, expect_args(w, resp, f, expected_args(rec["argsVar"], k), "variable-in-list"), resp)
+            # the same text again with another value of the variable (per-document caches must not freeze it),
+            # also two levels deep and at a directive argument
+            xv2 = value_py(rec["v"]["v"][0], 1)
+            exp2 = expected_args(rec["argsVar"], 1)
+            for q2, where in (("query ($x: %s) { s %s(a: [$x]) }" % (render.typeref(inner_item_type(ty)), f), "field"),
+                              ("query ($x: %s) { s @p%d(a: [$x]) }" % (render.typeref(inner_item_type(ty)), ti), "directive")):
+                for val, exp in ((xv, expected_args(rec["argsVar"], k)), (xv2, exp2), (xv, expected_args(rec["argsVar"], k))):
+                    resp = w.run(q2, {"x": val})
+                    st["n"] += 1
+                    if where == "field":
+                        mm2 = expect_args(w, resp, f, exp, "variable-in-list-repeated")
+                    else:
+                        mm2 = [] if (isinstance(resp, dict) and not resp.get("errors") and len(w.dcalls) == 1 and render.strict_eq(w.dcalls[0][1], exp)) \
+                            else ["directive variable-in-list-repeated: hook saw %r, expected %r (%r)" % (w.dcalls, exp, resp)]
+                    flag(rec, "variable-in-list-repeated-" + where, q2, {"x": val}, mm2, resp)
         if rec["viaObj"]:
             q = "query ($x: Int!) { s %s(a: {r: $x}) }" % f
             xv = value_py(rec["v"]["v"][0][1], k)
